@@ -258,7 +258,13 @@ func genCase(t *rapid.T, scan bool) Case {
 			p.LatMs = rapid.Int64Range(900, 40000).Draw(t, "lat")
 		default:
 			// a request that hangs for minutes before the log answers (virtual time costs nothing)
-			p.LatMs = spread(t, "latHang", 60000, 600000)
+			if scan {
+				// the scanner's one-second progress ticker makes every virtual hour of a scan case cost real
+				// time; the long hangs are exercised by the fetch sub-property
+				p.LatMs = spread(t, "latHang", 60000, 150000)
+			} else {
+				p.LatMs = spread(t, "latHang", 60000, 600000)
+			}
 		}
 		switch weighted(t, "shortClass", 5, 3, 3) {
 		case 0:
